@@ -72,8 +72,10 @@ def gen_arg(rng, sf, tmp):
             return {"a": "val", "py": C.gen_tree_for(rng, sf["schema"], tmp, 0.7, 0.1)}
         if r < 0.75:
             return {"a": "cfg", "schema_same": True, "tree": C.gen_tree_for(rng, sf["schema"], tmp, 0.6, 0.0)}
-        if r < 0.85:
+        if r < 0.80:
             return {"a": "cfg", "schema_same": False, "tree": {}}
+        if r < 0.85:
+            return {"a": "cfg", "schema_same": False, "tree": {}, "held_elsewhere": True}
         return {"a": "val", "py": rng.choice(JUNK_FOR_SUB)}
     if kind == "cfglist":
         r = rng.random()
@@ -155,6 +157,7 @@ def wire_op(op):
     if op["op"] == "cmdline":
         w.pop("argv", None)
         w["given"] = [[d, F.enc_val(v)] for d, v in op["given"]]
+        w["ignore"] = [op["ignore"]] if isinstance(op["ignore"], str) else list(op["ignore"])
     if op["op"] == "to_tree" and op.get("mask") is not None:
         w["mask"] = enc_str(op["mask"])
     return w
@@ -199,6 +202,22 @@ def make_cfg_arg(built, sk, dotted, arg, tmp):
     c = obj() if not isinstance(obj, type) else obj()
     c.load_tree(copy.deepcopy(arg["tree"]), validate=False)
     return c
+
+
+def held_elsewhere(cfg, sk, dotted):
+    """a sub-configuration (of another schema: every nested schema of the skeleton is its own Schema object) that currently sits
+    in another slot of this configuration, or None: assigning it where it does not belong must be rejected and must leave it
+    where it is, as it is"""
+    from cincoconfig.core import Config
+    for p, sf in C.leaf_paths(sk):
+        if sf["s"] not in ("sub", "ctype") or p == dotted or dotted.startswith(p + ".") or p.startswith(dotted + "."):
+            continue
+        cur = cfg
+        for part in p.split("."):
+            cur = cur._data.get(part) if isinstance(cur, Config) else None
+        if isinstance(cur, Config):
+            return cur
+    return None
 
 
 def real_objects(sk, schema, built):
@@ -251,7 +270,9 @@ def run_impl(sk, ops, tmp, keypath, environ=None, tape=None):
                         val = copy.deepcopy(a["py"])
                     else:
                         try:
-                            val = make_cfg_arg(built, sk, op["key"], a, tmp)
+                            val = held_elsewhere(cfg, sk, op["key"]) if a.get("held_elsewhere") else None
+                            if val is None:
+                                val = make_cfg_arg(built, sk, op["key"], a, tmp)
                         except Exception:  # noqa  (the argument itself could not be built: not an operation on cfg)
                             res["steps"].append({"out": {"err": "ArgBuild"}, "state": C.dump_cfg(cfg, ids)})
                             continue
